@@ -148,10 +148,6 @@ func cmdFuncs(args []string) int {
 	return 0
 }
 
-func cmdCheck(args []string) int {
-	fmt.Fprintln(os.Stderr, "not implemented yet")
-	return 2
-}
 
 var _ = json.Marshal
 var _ = strings.Join
